@@ -350,6 +350,23 @@ impl<'a> B<'a> {
                     call1(f, self.arg(Ty::Any, d1))
                 }
                 7 => E::Bin(BinOp::Eq, Box::new(E::Ev(vec![Seg::F("flag".into())])), Box::new(E::Lit(TV::Bool(true)))),
+                // an ordering comparison between independently chosen scalar kinds, unhandled: the
+                // compiler must reject the mixes that can fail at runtime (string against
+                // timestamp, number against string, ...); same-kind pairs are accepted
+                8 if self.c.chance(1, 3) => {
+                    let op = [BinOp::Lt, BinOp::Le, BinOp::Gt, BinOp::Ge][self.c.below(4)];
+                    let mut side = |s: &mut Self| -> E {
+                        match s.c.below(4) {
+                            0 => s.expr(Ty::Int, d1),
+                            1 => s.expr(Ty::Str, d1),
+                            2 => E::Lit(TV::Ts { s: [0i64, 1_600_000_000, 951_782_400][s.c.below(3)], n: 0 }),
+                            _ => s.expr(Ty::Float, d1),
+                        }
+                    };
+                    let a = side(self);
+                    let b = side(self);
+                    E::Bin(op, Box::new(a), Box::new(b))
+                }
                 _ => self.lit(Ty::Bool),
             },
             Ty::Null => E::Lit(TV::Null),
